@@ -7,7 +7,33 @@ import (
 	"strings"
 )
 
+// intLits lists all integer literals of a function body in source order.
+func intLits(rel, fn string) []string {
+	fd := funcDecl(rel, fn)
+	if fd == nil {
+		return nil
+	}
+	var out []string
+	ast.Inspect(fd.Body, func(n ast.Node) bool {
+		if bl, ok := n.(*ast.BasicLit); ok {
+			if v, ok := intLit(bl); ok {
+				out = append(out, fmt.Sprint(v))
+			}
+		}
+		return true
+	})
+	return out
+}
+
 func init() {
+	reg("ModbusFraming", func(g *gen) {
+		g.int("mbMaxADULen", "modbus/modbus.go", "maxADULen")
+		g.raw("/-- modbus/crc.go: integer literals of RtuCrc, in source order -/\ndef mbRtuCrcLits : List String := " + leanStrList(intLits("modbus/crc.go", "RtuCrc")))
+		g.raw("/-- modbus/crc.go: comparisons of CheckRtuCrc -/\ndef mbCheckRtuCrcCmps : List String := " + leanStrList(cmpAny("modbus/crc.go", "CheckRtuCrc")))
+		g.raw("/-- modbus/tcp.go: comparisons of TCP.Decode -/\ndef mbTcpDecodeCmps : List String := " + leanStrList(cmpAny("modbus/tcp.go", "Decode")))
+		g.raw("/-- modbus/tcp.go: integer literals of TCP.Encode -/\ndef mbTcpEncodeLits : List String := " + leanStrList(intLits("modbus/tcp.go", "Encode")))
+		g.raw("/-- modbus/pdu.go: comparisons of RespReadBitsCount -/\ndef mbRespReadBitsCountCmps : List String := " + leanStrList(cmpAny("modbus/pdu.go", "RespReadBitsCount")))
+	})
 	reg("Modbus", func(g *gen) {
 		f := "modbus/modbus.go"
 		for _, n := range []string{"FuncCodeReadDiscreteInputs", "FuncCodeReadCoils", "FuncCodeWriteSingleCoil", "FuncCodeWriteMultipleCoils",
